@@ -856,7 +856,18 @@ def _dig(fn):
     return fn
 
 
-def _resolve(selector, env, cnt, receivers=()):
+def _capture_names(selector):
+    if isinstance(selector, Call):
+        for x in (*selector.captures, *selector.children):
+            yield from _capture_names(x)
+    elif selector.capture is not None:
+        yield selector.capture
+
+
+def _resolve(selector, env, cnt, taken=None):
+    if taken is None:
+        # Names of the captures written in the selector
+        taken = set(_capture_names(selector))
     if isinstance(selector, Call):
         el = _resolve(selector.element, env, cnt)
         captures = [_resolve(x, env, cnt) for x in selector.captures]
@@ -873,11 +884,11 @@ def _resolve(selector, env, cnt, receivers=()):
                 )
             selfname = argnames[0]
             el = el.clone(name=real_fn)
-            # Captures are identified by name along the whole call path: the
-            # instance of an enclosing method call may use the same name
-            taken = {cap.capture for cap in captures} | set(receivers)
+            # Captures are identified by name in the whole selector: another
+            # capture (the instance of another method call, or one that the
+            # selector itself names) may already use the name
             capname = selfname if selfname not in taken else f"/{next(cnt)}"
-            receivers = (*receivers, capname)
+            taken.add(capname)
             captures.append(
                 Element(
                     name=selfname,
@@ -893,7 +904,7 @@ def _resolve(selector, env, cnt, receivers=()):
             element=el,
             captures=tuple(captures),
             children=tuple(
-                _resolve(x, env, cnt, receivers) for x in selector.children
+                _resolve(x, env, cnt, taken) for x in selector.children
             ),
         )
     elif isinstance(selector, Element):
